@@ -90,6 +90,9 @@ def h_cr(ctx, cfg):
     fca = ctx.arr("fca", n, lo=base.th_fc, hi=base.th_s)
     flux = ctx.arr("FluxOut", n, lo=0, hi=base.Ksat)
     zgw = ctx.real("z_gw", 0.01, 40)
+    # the profile object carries its own th_fc_Adj (written once at initialisation for the first day's table depth): an arbitrary,
+    # possibly stale snapshot that today's capillary rise must not use
+    prof.th_fc_Adj = ctx.arr("prof_fca_snapshot", n, lo=base.th_fc, hi=base.th_s)
     nc = types.SimpleNamespace(th=th, th_fc_Adj=fca, z_gw=zgw)
     nlayer = int(np.unique(base.Layer).shape[0])
     snap = prof_snapshot(prof)
@@ -110,6 +113,7 @@ def h_cr(ctx, cfg):
         ctx.prove("C19:no table => CR=0 and th untouched", And(approx(cr, 0, 0), *[a == b for a, b in zip(list(nc2.th), th0)]))
     far = zgw - float(base.zMid[-1]) >= 4
     ctx.prove("C19:table >= 4 m below the bottom compartment => CR=0", Implies(far, And(approx(cr, 0, 0), *[a == b for a, b in zip(list(nc2.th), th0)])))
+    snap["th_fc_Adj"] = list(prof.th_fc_Adj)
     prove_prof_unchanged(ctx, prof, snap, "C12:capillary_rise")
     if ctx.feasible(cr > 0.01):
         ctx.reach("capillary-rise>0")
